@@ -85,6 +85,8 @@ pub struct Stats {
     /// per class: worst observed ratio |impl - ref| / (u * M) and where
     pub worst: BTreeMap<String, (f64, String)>,
     pub max_depth: u64,
+    /// violations that carry an input hash, kept one by one: (signature, input hash) -> violation
+    pub by_input: BTreeMap<(String, u64), Violation>,
 }
 
 impl Stats {
@@ -115,6 +117,14 @@ impl Stats {
     pub fn violation(&mut self, v: Violation) {
         let e = self.violations.entry(v.sig.clone()).or_insert_with(|| (0, v));
         e.0 += 1;
+    }
+    /// a violation identified by the hash of its specific input (for findings that are listed
+    /// input by input)
+    pub fn violation_with_input(&mut self, v: Violation, input: u64) {
+        if self.by_input.len() < 500_000 {
+            self.by_input.entry((v.sig.clone(), input)).or_insert_with(|| v.clone());
+        }
+        self.violation(v);
     }
     pub fn ratio(&mut self, class: &str, r: f64, at: impl FnOnce() -> String) {
         match self.worst.get_mut(class) {
@@ -149,6 +159,11 @@ impl Stats {
         for (k, (n, v)) in o.violations {
             let e = self.violations.entry(k).or_insert_with(|| (0, v));
             e.0 += n;
+        }
+        for (k, v) in o.by_input {
+            if self.by_input.len() < 500_000 {
+                self.by_input.entry(k).or_insert(v);
+            }
         }
         for s in o.samples {
             if self.samples.len() < 12 {
@@ -239,6 +254,9 @@ pub struct Known {
     pub property: String,
     pub sig_pattern: String,
     pub text: String,
+    /// optional file (relative to /verif) listing, one hex hash per line, the specific inputs this
+    /// finding covers; a failing input that is not listed is a new violation
+    pub inputs_file: Option<String>,
 }
 
 /// pattern language: `*` matches any run of characters, everything else literally
@@ -280,10 +298,16 @@ pub fn load_known(property: &str) -> Vec<Known> {
         let mut it = rest.splitn(3, ' ');
         let p = it.next().unwrap_or("");
         let s = it.next().unwrap_or("");
-        let t = it.next().unwrap_or("");
+        let mut t = it.next().unwrap_or("").to_string();
+        let mut inputs_file = None;
+        if let Some(r) = t.strip_prefix("inputs=") {
+            let mut jt = r.splitn(2, ' ');
+            inputs_file = Some(jt.next().unwrap_or("").to_string());
+            t = jt.next().unwrap_or("").to_string();
+        }
         if let (Some(p), Some(s)) = (p.strip_prefix("property="), s.strip_prefix("sig=")) {
             if p == property {
-                out.push(Known { property: p.to_string(), sig_pattern: s.to_string(), text: t.to_string() });
+                out.push(Known { property: p.to_string(), sig_pattern: s.to_string(), text: t, inputs_file });
             }
         }
     }
@@ -318,9 +342,54 @@ pub fn finish(rep: Report, stats: Stats) -> i32 {
     let _ = std::fs::create_dir_all(format!("{VERIF}/replays"));
     let _ = std::fs::create_dir_all(format!("{VERIF}/evidence"));
     let mut vio_list = Vec::new();
+    // maintenance mode (never used by a check): dump the input hashes of the findings that are
+    // identified input by input
+    if let Ok(dump) = std::env::var("VERIF_DUMP_KNOWN_INPUTS") {
+        let mut lines: BTreeMap<String, Vec<String>> = BTreeMap::new();
+        for ((sig, h), _) in &stats.by_input {
+            if let Some(k) = known.iter().find(|k| k.inputs_file.is_some() && glob_match(&k.sig_pattern, &sig_key(sig))) {
+                lines.entry(k.inputs_file.clone().unwrap()).or_default().push(format!("{h:016x}"));
+            }
+        }
+        for (f, mut l) in lines {
+            l.sort();
+            l.dedup();
+            let path = format!("{dump}/{}", f.rsplit('/').next().unwrap());
+            std::fs::write(&path, l.join("\n") + "\n").unwrap_or_else(|e| machinery(&format!("cannot write {path}: {e}")));
+            println!("dumped {} input hashes to {path}", l.len());
+        }
+    }
+    let mut input_sets: BTreeMap<String, HashSet<u64>> = BTreeMap::new();
+    for k in &known {
+        if let Some(f) = &k.inputs_file {
+            let txt = std::fs::read_to_string(format!("{VERIF}/{f}")).unwrap_or_else(|e| machinery(&format!("known-findings input list {f}: {e}")));
+            input_sets.insert(f.clone(), txt.lines().filter_map(|l| u64::from_str_radix(l.trim(), 16).ok()).collect());
+        }
+    }
     for (sig, (n, v)) in &stats.violations {
         let key = sig_key(sig);
         if let Some(k) = known.iter().find(|k| glob_match(&k.sig_pattern, &key)) {
+            if let Some(f) = &k.inputs_file {
+                // identified input by input: every failing input of this class must be listed
+                let set = &input_sets[f];
+                let fresh: Vec<&Violation> = stats.by_input.iter().filter(|((s, h), _)| s == sig && !set.contains(h)).map(|(_, v)| v).collect();
+                let listed = stats.by_input.keys().filter(|(s, h)| s == sig && set.contains(h)).count() as u64;
+                if listed > 0 {
+                    *known_hits.entry(format!("{} :: {}", k.sig_pattern, k.text)).or_insert(0) += listed;
+                }
+                if let Some(first) = fresh.first() {
+                    new_violations += 1;
+                    let path = format!("{VERIF}/replays/{}-{:016x}.json", rep.property, hash64(&(sig, "new-input")));
+                    let body = json!({"property": rep.property, "sig": sig, "count": fresh.len(), "what": first.what, "case": first.case, "note": "this input is not in the list of inputs covered by the known finding"});
+                    std::fs::write(&path, serde_json::to_string_pretty(&body).unwrap()).unwrap_or_else(|e| machinery(&format!("cannot write {path}: {e}")));
+                    println!("VIOLATION property={} replay={}", rep.property, path);
+                    println!("  sig: {sig}  ({} inputs not covered by the known finding)  {}", fresh.len(), first.what);
+                    vio_list.push(json!({"sig": sig, "count": fresh.len(), "replay": path, "what": first.what, "note": "inputs not listed under the known finding"}));
+                } else {
+                    vio_list.push(json!({"sig": sig, "count": n, "known": k.sig_pattern, "what": v.what}));
+                }
+                continue;
+            }
             *known_hits.entry(format!("{} :: {}", k.sig_pattern, k.text)).or_insert(0) += n;
             vio_list.push(json!({"sig": sig, "count": n, "known": k.sig_pattern, "what": v.what}));
             continue;
